@@ -153,6 +153,27 @@ static void enum_len(const std::vector<std::string>& sigma, int len, int slice, 
     }
 }
 
+// (U) raw bytes inside strings: every byte sequence of length len over `sigma` (all 256 byte values, or class representatives of
+// the UTF-8 lead/continuation ranges), as a string value, a member name, an array element and between ASCII characters
+static void enum_utf8(const std::vector<std::string>& sigma, int len, int slice, int nslices, const std::vector<int>& optsets, unsigned entries) {
+    static const std::pair<std::string, std::string> ctx[] = {{"\"", "\""}, {"{\"", "\":0}"}, {"[\"a", "a\"]"}};
+    size_t n = sigma.size();
+    std::vector<int> idx(len, 0);
+    std::string body;
+    for (size_t first = 0; first < n; ++first) {
+        if ((int)(first % nslices) != slice) continue;
+        idx[0] = (int)first; for (int k = 1; k < len; ++k) idx[k] = 0;
+        for (;;) {
+            body.clear();
+            for (int k = 0; k < len; ++k) body += sigma[idx[k]];
+            for (auto& c : ctx) for (int b : optsets) check_text(c.first + body + c.second, b, entries);
+            int k = len - 1;
+            while (k >= 1 && ++idx[k] == (int)n) { idx[k] = 0; --k; }
+            if (k < 1) break;
+        }
+    }
+}
+
 // ---------------------------------------------------------------------------
 // (B) product search
 struct Impl {
@@ -290,6 +311,19 @@ int main(int argc, char** argv) {
         for (auto& s : split(a.get("opts", "0"), ',')) optsets.push_back(atoi(s.c_str()));
         unsigned entries = (unsigned)a.geti("entries", 1);
         for (int len = from; len <= L; ++len) enum_len(sigma, len, a.slice, a.nslices, optsets, entries);
+        out().count("evaluations", g_eval);
+        out().count("nontrivial", g_accept);
+        out().count("unspecified_abstained", g_unspec);
+    } else if (mode == "utf8") {
+        std::vector<std::string> all, reps;
+        for (int b = 0; b < 256; ++b) all.push_back(std::string(1, char(b)));
+        for (int b : {0x22, 0x5c, 0x61, 0x7f, 0x80, 0x8f, 0x90, 0x9f, 0xa0, 0xbf, 0xc0, 0xc1, 0xc2, 0xdf, 0xe0, 0xe1, 0xec, 0xed, 0xee, 0xef, 0xf0, 0xf1, 0xf3, 0xf4, 0xf5, 0xf7, 0xf8, 0xff}) reps.push_back(std::string(1, char(b)));
+        int L = (int)a.geti("L", 2), R = (int)a.geti("R", 4);
+        std::vector<int> optsets;
+        for (auto& s : split(a.get("opts", "0"), ',')) optsets.push_back(atoi(s.c_str()));
+        unsigned entries = (unsigned)a.geti("entries", 47);
+        for (int len = 1; len <= L; ++len) enum_utf8(all, len, a.slice, a.nslices, optsets, entries);
+        for (int len = L + 1; len <= R; ++len) enum_utf8(reps, len, a.slice, a.nslices, optsets, entries);
         out().count("evaluations", g_eval);
         out().count("nontrivial", g_accept);
         out().count("unspecified_abstained", g_unspec);
